@@ -44,13 +44,15 @@ def c16(tier, seed):
     k = 1 if tier == 'quick' else 30
     t = 420 if tier == 'quick' else 7200
     for fl in ('memb', 'mb', 'qsbr', 'bp'):
-        out.append(_c('%s-plain' % fl, fl, 'plain', 95 * k, timeout=t))
-        out.append(_c('%s-asan' % fl, fl, 'asan', 45 * k, timeout=t))
-    out.append(_c('memb-multi-plain', 'memb', 'plain', 40 * k, extra=['--multi=1'], timeout=t))
-    out.append(_c('memb-multi-asan', 'memb', 'asan', 20 * k, extra=['--multi=1'], timeout=t))
+        bp = ['--tun-bp-sleep=1'] if fl == 'bp' else []
+        out.append(_c('%s-plain' % fl, fl, 'plain', 130 * k, extra=bp, timeout=t))
+        out.append(_c('%s-asan' % fl, fl, 'asan', 65 * k, extra=bp, timeout=t))
+    out.append(_c('memb-multi-plain', 'memb', 'plain', 50 * k, extra=['--multi=1'], timeout=t))
+    out.append(_c('memb-multi-asan', 'memb', 'asan', 25 * k, extra=['--multi=1'], timeout=t))
     if tier != 'quick':
         out.append(_c('memb-builtins', 'memb', 'builtins', 60 * k, timeout=t))
-        out.append(_c('bp-builtins', 'bp', 'builtins', 60 * k, timeout=t))
+        out.append(_c('bp-builtins', 'bp', 'builtins', 60 * k, extra=['--tun-bp-sleep=1'], timeout=t))
+        out.append(_c('bp-stock-sleep', 'bp', 'plain', 40 * k, timeout=t))
         out.append(_c('qsbr-nochaos', 'qsbr', 'plain', 60 * k, extra=['--hook-prob=0'], timeout=t))
         out.append(_c('mb-pairs', 'mb', 'plain', 60 * k, extra=['--placement=1'], timeout=t))
     return out
